@@ -53,6 +53,21 @@ def model_scenario_map(features):
     return result
 
 
+def ran_object_lookup(run):
+    """-> function(scenario of the final model) -> the Scenario object that was handed to
+    before_scenario for the same file:line during the run (the object that RAN), else the
+    argument itself.  Oracles that describe "the run" read statuses through this, so that a
+    model which hands out rebuilt (never executed) row objects afterwards cannot vouch for
+    itself."""
+    ran = {}
+    for obj in getattr(run, "ran_scenarios", None) or ():
+        ran[(obj.location.filename, obj.location.line)] = obj
+
+    def lookup(scenario):
+        return ran.get((scenario.location.filename, scenario.location.line), scenario)
+    return lookup
+
+
 def check_verdict(res, prefix, ref, run):
     if run.escaped is not None:
         res.fail(prefix + ".escape", "exception escaped run(): %r" % (run.escaped,))
